@@ -99,3 +99,19 @@ def match_poles(fn_tab, xi_tab, phi_tab, sys, lam_tab=None):
             )
         )
     return out
+
+
+def observability_index(S, rows, tol=1e-6, kmax=40):
+    """smallest k such that [C; CA; ...; CA^(k-1)] restricted to the sensor `rows` has (numerical) rank 2m"""
+    A, C = S.state_space()
+    Cr = C[list(rows), :]
+    blocks = []
+    M = np.eye(A.shape[0])
+    for k in range(1, kmax + 1):
+        blocks.append(Cr @ M)
+        M = M @ A
+        O = np.vstack(blocks)
+        sv = np.linalg.svd(O, compute_uv=False)
+        if len(sv) >= A.shape[0] and sv[A.shape[0] - 1] > tol * sv[0]:
+            return k
+    return None
